@@ -198,6 +198,13 @@ func (pb *PrimaryBlock) UnmarshalCbor(r io.Reader) error {
 		pb.CRCType = CRCType(crcT)
 	}
 
+	// The CRC type must be known and has to match the presence of a CRC field.
+	if _, err := emptyCRC(pb.CRCType); err != nil {
+		return err
+	} else if hasCRCField := blockLen == 9 || blockLen == 11; hasCRCField != pb.HasCRC() {
+		return fmt.Errorf("array of %d elements does not match CRC type %v", blockLen, pb.CRCType)
+	}
+
 	eids := []*EndpointID{&pb.Destination, &pb.SourceNode, &pb.ReportTo}
 	for _, eid := range eids {
 		if err := cboring.Unmarshal(eid, r); err != nil {
